@@ -11,7 +11,8 @@ from vpm.props.c01 import LONG, SHORT
 
 ID = "C02"
 RULE = ("Seeded generation. (a) JDE in [0, 5.4e6]: uniform, civil midnights "
-        "k+0.5, month/year starts from the day counter, the 1582 reform "
+        "k+0.5, whole minutes and hours of the day in every binade of the "
+        "JDE, month/year starts from the day counter, the 1582 reform "
         "instant and powers of two, each with offsets {0, +-1, +-2 ulp, "
         "+-1e-9, +-1e-6 d, +-1 ms, +-1 s}: Epoch(j) -> get_full_date() -> "
         "Epoch(fields); offline checker over the sorted log of (j, fields) "
@@ -80,8 +81,17 @@ def shards(tier, seed):
 # ----------------------------------------------------------------- generators
 def gen_base_jde(rng):
     r = rng.random()
-    if r < 0.25:
+    if r < 0.12:
         return rng.uniform(0.0, 5.4e6), "uniform"
+    if r < 0.25:
+        # whole minutes / hours of the day, in every binade of the JDE (the
+        # float resolution of the day fraction changes with the magnitude)
+        top = 2 ** rng.randrange(2, 23)
+        day = float(rng.randrange(top // 2, min(top, 5400000)))
+        if rng.random() < 0.3:
+            frac = rng.randrange(24) / 24.0
+            return day + frac, "hour-boundary"
+        return day + rng.randrange(1440) / 1440.0, "minute-boundary"
     if r < 0.45:
         return float(rng.randrange(0, 5400000)) + 0.5, "midnight"
     if r < 0.75:
@@ -129,6 +139,8 @@ def case_roundtrip(mon, j, cls="replay", log=None):
         mon.cls("within-1s-of-day-boundary", (j,), [j, list(full)])
     if cls in ("month-start", "year-start", "reform") and near:
         mon.cls("within-1s-of-" + cls, (j,), [j, list(full)])
+    if cls in ("minute-boundary", "hour-boundary"):
+        mon.cls("at-" + cls, (j,), [j, list(full)])
     mon.check("jde()~=input", abs(e.jde() - j) <= 1e-8 and e() == e.jde()
               and float(e) == e.jde(), {"jde": j, "stored": e.jde()})
     mon.check("fields.types", all(type(v) is int for v in (y, m, d, h, mi))
@@ -197,7 +209,9 @@ def gen_civil(rng):
     d = rng.choice(days) if rng.random() < 0.7 else rng.choice(
         (days[0], days[-1]))
     r = rng.random()
-    if r < 0.2:
+    if r < 0.15:
+        h, mi, us = rng.randrange(24), rng.randrange(60), 0
+    elif r < 0.2:
         h, mi, us = 0, 0, 0
     elif r < 0.4:
         h, mi, us = 23, 59, 59999999 - rng.randrange(0, 3)
@@ -277,6 +291,22 @@ def case_forms(mon, y, m, d, h, mi, us):
     mon.check("forms.agree<=1e-9", not bad,
               lambda: {"instant": [y, m, d, h, mi, s], "separate": ref,
                        "disagreeing": bad})
+    # reading the instant back must give canonical fields again
+    if isinstance(ref, float):
+        try:
+            fy, fm, fd, fh, fmi, fs = Epoch(y, m, d, h, mi, s).get_full_date()
+            okf = (0 <= fh <= 23 and 0 <= fmi <= 59 and 0.0 <= fs < 60.0
+                   and abs(((fh * 60 + fmi) * 60 + fs)
+                           - ((h * 60 + mi) * 60 + s)) % 86400.0 < 1e-3 + 0
+                   or abs(abs(((fh * 60 + fmi) * 60 + fs)
+                              - ((h * 60 + mi) * 60 + s)) - 86400.0) < 1e-3)
+            okf = okf and 0 <= fh <= 23 and 0 <= fmi <= 59 \
+                and 0.0 <= fs < 60.0
+        except Exception as ex_:
+            okf, fh, fmi, fs = False, repr(ex_), None, None
+        mon.check("fields.canonical", okf,
+                  lambda: {"instant": [y, m, d, h, mi, s],
+                           "read_back": [fh, fmi, fs]})
     # the civil-day value itself, against the day counter
     if isinstance(ref, float) and y <= 6000:
         want = dc.jd0h(y, m, d) + frac
